@@ -72,10 +72,12 @@ class Scenario:
     def ip(self, k):
         return self.block + str(k).encode()
 
-    def listen(self, k, udp=5060, tcp=0, backends=(), dyn=False, no_received=None, must_rr=False, dynport=None, dyn_first=False):
+    def listen(self, k, udp=5060, tcp=0, backends=(), dyn=False, no_received=None, must_rr=False, dynport=None, dyn_first=False,
+               btcp=False):
         """dyn: one more backend entry is a host NAME (resolved later: badd / brem events); dynport: its port (default: the
-        port of the first static backend); dyn_first: the name is written before the static entries"""
-        l = {"addr": self.ip(k), "udp": udp, "tcp": tcp, "backends": list(backends), "dyn": dyn,
+        port of the first static backend); dyn_first: the name is written before the static entries; btcp: the backends of
+        this entry are reached over TCP (tcp://ip:port; the case is then one of the "proxytb" component)"""
+        l = {"addr": self.ip(k), "udp": udp, "tcp": tcp, "backends": list(backends), "dyn": dyn, "btcp": btcp,
              "no_received": no_received, "must_rr": must_rr, "dynport_opt": dynport, "dyn_first": dyn_first,
              "dynhost": (b"dyn%d.b%s.test" % (len(self.listens), self.block.replace(b".", b"-"))) if dyn else b""}
         self.listens.append(l)
@@ -109,6 +111,15 @@ class Scenario:
         self.events.append([b"close", cid])
         return len(self.events) - 1
 
+    def ev_bdata(self, ip, port, data):
+        """bytes arriving on the connection the proxy has open TO ip:port (nothing happens when there is none)"""
+        self.events.append([b"bdata", ip, port, data])
+        return len(self.events) - 1
+
+    def ev_bclose(self, ip, port):
+        self.events.append([b"bclose", ip, port])
+        return len(self.events) - 1
+
     def ev_badd(self, li, addr):
         self.events.append([b"badd", li, addr])
         return len(self.events) - 1
@@ -138,14 +149,15 @@ class Scenario:
                 y += b"    no-received: %s\n" % (b"true" if l["no_received"] else b"false")
             if l["must_rr"]:
                 y += b"    must-record-route: true\n"
-            bs = [b"udp://" + b for b in l["backends"]]
+            scheme = b"tcp://" if l.get("btcp") else b"udp://"
+            bs = [scheme + b for b in l["backends"]]
             if l["dyn"]:
                 port = l["dynport_opt"] or (l["backends"][0].split(b":")[1] if l["backends"] else b"5070")
                 l["dynport"] = port
                 if l["dyn_first"]:
-                    bs.insert(0, b"udp://" + l["dynhost"] + b":" + port)
+                    bs.insert(0, scheme + l["dynhost"] + b":" + port)
                 else:
-                    bs.append(b"udp://" + l["dynhost"] + b":" + port)
+                    bs.append(scheme + l["dynhost"] + b":" + port)
             if bs:
                 y += b"    backends:\n"
                 for b in bs:
@@ -206,14 +218,19 @@ class Scenario:
             t += [b"waits", len(self.waits)]
             for i, w in self.waits:
                 t += [i, w]
+        if self.is_tb():
+            t += [b"tcpb", len(self.listens)] + [bool(l.get("btcp")) for l in self.listens]
         return t
+
+    def is_tb(self):
+        return any(l.get("btcp") for l in self.listens)
 
     def case(self, cid, meta=None):
         m = dict(self.meta)
         m.update(meta or {})
         m["block"] = self.block.decode()
         m["events"] = len(self.events)
-        return Case("proxy", cid, self.toks(), m)
+        return Case("proxytb" if self.is_tb() else "proxy", cid, self.toks(), m)
 
 
 # ----------------------------------------------------------------------------- observations
